@@ -395,6 +395,55 @@ fn values_and_noop(rep: &mut Report, r: &mut Rng) {
             rep.violation("C04:gaugevalue-semantics", jo! {"what" => "GaugeValue::update_value disagrees with set/inc/dec semantics", "v" => f});
         }
     }
+    // handles whose handler is itself an Arc (forwarding impls for Arc<T>, as generational / layered storages use):
+    // every operation must arrive unchanged, exactly once
+    for _ in 0..200 {
+        let inner = Arc::new(AtomicU64::new(0f64.to_bits()));
+        let g = Gauge::from_arc(Arc::new(inner.clone()));
+        let mut model = 0.0f64;
+        let mut hist = Vec::new();
+        for _ in 0..(1 + r.usize(8)) {
+            let v = *r.pick(&[0.5f64, 1.0, 2.0, 8.0, 64.0]);
+            match r.below(3) {
+                0 => {
+                    g.increment(v);
+                    model += v;
+                    hist.push(format!("increment({})", v));
+                }
+                1 => {
+                    g.decrement(v);
+                    model -= v;
+                    hist.push(format!("decrement({})", v));
+                }
+                _ => {
+                    g.set(v);
+                    model = v;
+                    hist.push(format!("set({})", v));
+                }
+            }
+        }
+        let got = f64::from_bits(inner.load(Ordering::SeqCst));
+        rep.case(mix(model.to_bits(), hist.len() as u64 + 77), true);
+        if got != model {
+            rep.violation("C04:gauge-op-altered:through-arc-forwarding", jo! {"what" => "a gauge handle whose handler is an Arc<Arc<AtomicU64>> did not apply the operations as given", "history" => J::A(hist.iter().map(|h| J::s(h.clone())).collect()), "expected" => model, "got" => got});
+        }
+        let cinner = Arc::new(AtomicU64::new(0));
+        let c = Counter::from_arc(Arc::new(cinner.clone()));
+        let mut cm = 0u64;
+        for _ in 0..(1 + r.usize(6)) {
+            let v = r.below(50);
+            if r.chance(1, 3) {
+                c.absolute(v);
+                cm = cm.max(v);
+            } else {
+                c.increment(v);
+                cm += v;
+            }
+        }
+        if cinner.load(Ordering::SeqCst) != cm {
+            rep.violation("C04:counter-op-altered:through-arc-forwarding", jo! {"what" => "a counter handle whose handler is an Arc<Arc<AtomicU64>> did not apply the operations as given", "expected" => cm, "got" => cinner.load(Ordering::SeqCst)});
+        }
+    }
     // IntoF64 table
     let conv_ok = 5u8.into_f64() == 5.0
         && (-5i8).into_f64() == -5.0
